@@ -1338,6 +1338,15 @@ class World:
         if py is dict:
             if not args and not kwargs:
                 return self.ext.new_map(ex)
+            if len(args) == 1 and isinstance(args[0], VMap) and not kwargs:
+                self.ext.use(ex, "dict(d): a new dict with the same entries")
+                m = args[0]
+                r = VMap(m.keys, m.vals, m.n, ref=ex.fresh("dictcopy", V))
+                ex.assume(r.ref != sym.NONE)
+                ex.assume(r.ref != ex.box(m))
+                ex.created.add(id(r))
+                ex.keep.append(r)
+                return r
             if len(args) == 1 and isinstance(args[0], VDict) and not kwargs:
                 self.ext.use(ex, "dict(d): shallow copy")
                 return VDict(list(args[0].items.items()))
